@@ -106,6 +106,42 @@ GROUPS2 = [
 	(['qe0', 'qf1', 'qi0'], [['entry', 'value', 'items'], ['e', 'value', 'items'], ['v', 'value', 'values'], ['a', 'b', 'ab'], ['it', 'item', 'items'], ['value_', 'value', 'value__']]),
 	(['Qc0', 'Qh0', 'qk0', 'Qb0', 'qf0', 'qm0', 'qr0'], [['Cursor', 'Holder', 'cursor', 'Box', 'n', 'm', 'order'], ['IteratorState', 'Holder', 'cursor', 'Box', 'n', 'm', 'order'], ['ItemsViewer', 'Iterator_', 'iterator', 'Box', 'n', 'm', 'order'], ['Cursor', 'CursorHolder', 'Cursor_', 'selfBox', 'self_n', 'selfm', 'sort']]),
 ]
+P3 = '''class Qt1:
+	class Ql1:
+		qw1: int
+
+		def __init__(self, qw1: int) -> None:
+			self.qw1 = qw1
+
+	qr1: 'Qt1.Ql1'
+
+	def __init__(self, qw1: int) -> None:
+		self.qr1 = Qt1.Ql1(qw1)
+
+	def qf2(self) -> 'Qt1.Ql1':
+		return self.qr1
+
+def qm2(qt2: Qt1) -> int:
+	ql2 = qt2.qf2()
+	qo2 = Qt1.Ql1(2)
+	qs2 = [ql2, qo2]
+	return ql2.qw1 + qo2.qw1 + len(qs2)
+
+def qu2(qv2: list[int], qk2: int) -> int:
+	qa2 = 0
+	for qe2 in qv2:
+		if qe2 > qk2:
+			qx2 = qe2 - qk2
+			qa2 = qa2 + qx2
+		else:
+			qa2 = qa2 + qe2
+	return qa2
+'''
+GROUPS3 = [
+	(['Qt1', 'Ql1'], [['Tree', 'Leaf'], ['Tree', 'TreeNode'], ['Tree', 'NodeOfTree'], ['Le', 'Leaf'], ['T', 'TT'], ['Leaf', 'Lea']]),
+	(['qa2', 'qx2', 'qe2', 'qk2'], [['total', 'extra', 'value', 'limit'], ['total', 'total_over', 'value', 'limit'], ['total', 'totals', 'limit_v', 'limit'], ['t', 't2', 'tt', 't_'], ['extra_total', 'extra', 'ex', 'e']]),
+	(['qw1', 'qr1', 'qf2', 'qm2', 'qt2', 'ql2', 'qo2', 'qs2', 'qu2', 'qv2'], [['weight', 'root', 'first', 'measure', 'tree', 'leaf', 'other', 'leaves', 'summarize', 'values'], ['w', 'ww', 'www', 'w_', 'w__w', 'w1', 'w2', 'w12', 'ws', 'w_s']]),
+]
 TEMPLATE: int = int(CASE.get('template', 0))
 _BASE: dict = {}
 
@@ -117,7 +153,7 @@ def rename(text: str, mapping: dict) -> str:
 
 def check_renaming(choices: list) -> bool:
 	mapping = {}
-	groups, program = [(GROUPS, P0), (GROUPS1, P1), (GROUPS2, P2)][TEMPLATE]
+	groups, program = [(GROUPS, P0), (GROUPS1, P1), (GROUPS2, P2), (GROUPS3, P3)][TEMPLATE]
 	for (bases, pool), c in zip(groups, choices):
 		for b, new in zip(bases, pool[c]):
 			mapping[b] = new
@@ -162,9 +198,17 @@ def ctor_renaming_law(c0: int, c1: int, c2: int) -> bool:
 	return ok(natively(check_renaming, [decode(c0, 6), decode(c1, 6), decode(c2, 4)]))
 
 
+def nested_renaming_law(c0: int, c1: int, c2: int) -> bool:
+	"""
+	pre: 0 <= c0 < 6 and 0 <= c1 < 5 and 0 <= c2 < 2
+	post: _
+	"""
+	return ok(natively(check_renaming, [decode(c0, 6), decode(c1, 5), decode(c2, 2)]))
+
+
 def explain_renaming(*choices: int) -> str:
 	mapping = {}
-	groups, program = [(GROUPS, P0), (GROUPS1, P1), (GROUPS2, P2)][TEMPLATE]
+	groups, program = [(GROUPS, P0), (GROUPS1, P1), (GROUPS2, P2), (GROUPS3, P3)][TEMPLATE]
 	for (bases, pool), c in zip(groups, choices):
 		for b, new in zip(bases, pool[c]):
 			mapping[b] = new
@@ -175,4 +219,4 @@ def explain_renaming(*choices: int) -> str:
 
 
 CLASSIFIERS: dict = {}
-EXPLAIN = {'renaming_law': explain_renaming, 'enum_renaming_law': explain_renaming, 'ctor_renaming_law': explain_renaming}
+EXPLAIN = {'renaming_law': explain_renaming, 'enum_renaming_law': explain_renaming, 'ctor_renaming_law': explain_renaming, 'nested_renaming_law': explain_renaming}
